@@ -2,7 +2,7 @@
 import re
 
 from ..engine import prop, rule
-from ..facts import op_local, op_place, is_place, backward_slice, opstr, pstr, switch_on, bool_edges
+from ..facts import op_local, op_place, is_place, backward_slice, opstr, pstr, switch_on, bool_edges, field_path, proj_names
 from .. import lib
 from .. import libtable as T
 
@@ -164,7 +164,7 @@ def alloc(ctx):
     for body in F.fns():
         for c in body.calls(READ_VEC):
             n_rv += 1
-            ok, why = read_vec_guarded(body, c)
+            ok, why = read_vec_guarded(body, c, F)
             ctx.check(ok, body.key, 'read_vec-bounded',
                       'Deserializer::read_vec (line %d) allocates the announced length before checking it and is not '
                       'dominated by a comparison of the peeked length with the remaining input: %s' % (c.ln, why),
@@ -175,8 +175,11 @@ def alloc(ctx):
         n_sinks, n_rv, sorted(TA.ret_tainted), {k: v for k, v in TA.sink_params.items()}))
 
 
-def read_vec_guarded(body, c):
-    de_roots = lib.roots_of(body, c.args[0])
+def peek_guards(body, is_remaining):
+    """(safe edge, line) of every comparison `remaining.len() <> announced` where the announced length is peeked from the
+    same remaining input; the safe edge is the one on which announced <= remaining.  is_remaining(slice) tells whether a
+    backward slice derives from the remaining input (and from nothing else that is input)."""
+    out = []
     for cmp_ in lib.comparisons(body):
         if cmp_['op'] not in ('Lt', 'Le', 'Gt', 'Ge'):
             continue
@@ -184,30 +187,70 @@ def read_vec_guarded(body, c):
         sb = backward_slice(body, [cmp_['b']], follow_mutarg=False)
         a_ann = bool(sa.has_call(SRC))
         b_ann = bool(sb.has_call(SRC))
-        a_rem = bool(sa.has_call(VALUE)) and bool(sa.has_call(*lib.LEN_CALLS)) and not a_ann
-        b_rem = bool(sb.has_call(VALUE)) and bool(sb.has_call(*lib.LEN_CALLS)) and not b_ann
+        a_rem = is_remaining(sa) and bool(sa.has_call(*lib.LEN_CALLS)) and not a_ann
+        b_rem = is_remaining(sb) and bool(sb.has_call(*lib.LEN_CALLS)) and not b_ann
         if a_rem and b_ann:
             rem_first = True
-            ann_slice, rem_slice = sb, sa
+            ann_slice = sb
         elif b_rem and a_ann:
             rem_first = False
-            ann_slice, rem_slice = sa, sb
+            ann_slice = sa
         else:
             continue
         # the announced length must be peeked from the same remaining input
-        if not ann_slice.has_call(VALUE):
-            continue
-        vals = rem_slice.has_call(VALUE) + ann_slice.has_call(VALUE)
-        if not all(lib.roots_of(body, v.args[0]) & de_roots for v in vals):
+        if not is_remaining(ann_slice):
             continue
         op = cmp_['op']
         if rem_first:
             safe = cmp_['fe'] if op in ('Lt', 'Le') else cmp_['te']
         else:
             safe = cmp_['te'] if op in ('Lt', 'Le') else cmp_['fe']
+        out.append((safe, cmp_['ln']))
+    return out
+
+
+def read_vec_guarded(body, c, F=None):
+    de_roots = lib.roots_of(body, c.args[0])
+
+    def from_de(sl):
+        vals = sl.has_call(VALUE)
+        return bool(vals) and all(lib.roots_of(body, v.args[0]) & de_roots for v in vals)
+    for safe, ln in peek_guards(body, from_de):
         if body.edge_dominates(safe, c.b):
-            return True, 'dominated by the announced<=remaining edge of the comparison at line %d' % cmp_['ln']
+            return True, 'dominated by the announced<=remaining edge of the comparison at line %d' % ln
+    # the same test in a private helper: `check(de.value())?; de.read_vec()`
+    if F is not None:
+        for ts in lib.try_sites(body):
+            d = ts.src_def
+            if d is None or d.kind != 'call' or ts.cont is None or ts.sw_block is None:
+                continue
+            h = d.call
+            g = lib.local_callee(F, h)
+            if g is None or g.kind == 'Closure' or not lib.returns_result(g):
+                continue
+            if not body.edge_dominates((ts.sw_block, ts.cont), c.b):
+                continue
+            for i, a in enumerate(h.args):
+                if not from_de(backward_slice(body, [a], follow_mutarg=False)):
+                    continue
+                pi = i + 1
+                guards = peek_guards(g, lambda sl: pi in sl.params and not sl.has_call(VALUE))
+                oks = ok_return_blocks(g)
+                for safe, ln in guards:
+                    if oks and all(g.edge_dominates(safe, b) for b in oks):
+                        return True, 'helper %s returns Ok only on the announced<=remaining edge (line %d); its `?` dominates the read' % (g.key, ln)
     return False, 'no dominating peeked-length comparison found'
+
+
+def ok_return_blocks(g):
+    """Blocks where an `Ok(..)` is built in a Result-returning function."""
+    out = []
+    for b in sorted(g.live_blocks()):
+        for st in g.stmts(b):
+            rv = st['rv']
+            if rv['k'] == 'agg' and rv.get('adt') == 'std::result::Result' and rv.get('variant') == 'Ok':
+                out.append(b)
+    return out
 
 
 # ---------------------------------------------------------------- loops
@@ -470,6 +513,30 @@ PANIC_EXCEPTIONS = [
 ]
 
 
+def unsized_array_len(body, op):
+    """N when the slice operand is a plain (re)borrow / unsizing of a whole `[T; N]` value, else None."""
+    l = op_local(op)
+    for _ in range(10):
+        if l is None:
+            return None
+        m = re.match(r'^&(mut )?\[[^;\[\]]+; (\d+)\]$', body.local_ty(l))
+        if m:
+            return int(m.group(2))
+        d = lib.single_def(body, l)
+        if d is None or d.kind != 'assign':
+            return None
+        rv = d.rv
+        if rv['k'] in ('use', 'cast') and is_place(rv['a']) and not field_path(op_place(rv['a'])):
+            l = op_local(rv['a'])
+        elif rv['k'] == 'ref' and all(x == '*' for x in proj_names(rv['pl'])):
+            if re.match(r'^\[[^;\[\]]+; (\d+)\]$', body.local_ty(rv['pl']['l'])) and not rv['pl']['p']:
+                return lib.array_len_of_ty(body.local_ty(rv['pl']['l']))
+            l = rv['pl']['l']
+        else:
+            return None
+    return None
+
+
 def discharge(ctx, F, ps):
     """Returns a reason string when the panic site is discharged, else None."""
     body = ps.body
@@ -521,6 +588,10 @@ def discharge(ctx, F, ps):
             edges = lib.len_at_least_edges(body, roots, n_[1])
             if edges and body.edges_dominate(edges, ps.b):
                 return 'split_at(%d) dominated by a length check len >= %d' % (n_[1], n_[1])
+            # the split slice is (an unsizing of) a local array of constant length >= n
+            alen = unsized_array_len(body, c.args[0])
+            if alen is not None and n_[1] <= alen:
+                return 'split_at(%d) of an array of constant length %d' % (n_[1], alen)
         return None
     if ps.kind in ('rem0', 'div0') and ps.term is not None:
         # `x % s.len()` inside `for i in 0..s.len()`: the body runs only when len > 0
